@@ -18,7 +18,7 @@ def main():
     a = sys.argv[2:]
     while a:
         assert a[0] == "--fixed", a
-        k, v = a[1].split("=", 1)
+        k, v = a[1].rsplit("=", 1)
         fixed[k] = v
         a = a[2:]
     d = json.load(open(KF))
